@@ -106,7 +106,13 @@ fn gen_extras(t: &mut Tape, known: &[&str], max: u64) -> Vec<(String, String)> {
     let n = gen::count(t, max);
     let mut out: Vec<(String, String)> = Vec::new();
     for i in 0 .. n {
-        let mut k = gen::word(t, 10);
+        // mostly invented keys, now and then one that real servers send (and that a client might be tempted
+        // to interpret where its response type has no member for it)
+        let mut k = if t.draw(DATA, 6) == 0 {
+            (*t.pick(DATA, &["gametype", "gamemode", "gamever", "gamename", "hostport", "timelimit", "fraglimit", "teamplay", "location", "numteams", "game_id", "plugins", "hostip", "gamevariant", "Hostname", "MapName", "version", "description", "tournament", "maptitle"])).to_string()
+        } else {
+            gen::word(t, 10)
+        };
         if t.draw(DATA, 4) == 0 {
             k.push('_');
             k.push_str(&gen::word(t, 3));
@@ -595,6 +601,10 @@ pub struct Gs3State {
     /// per-player sections the response type has no member for: "pid_" (a name the client knows) and
     /// "kills_" (one it does not); numeric values
     pub extra_sections: bool,
+    /// as real servers do: where a packet ends inside a section, the value that did not fit is sent cut
+    /// off at the end of the packet and sent again, whole, at the start of the next one (whose offset
+    /// byte names its position). Only for in-order delivery: off unless a check turns it on.
+    pub cut_values_resent: bool,
 }
 
 const GS3_KNOWN: &[&str] = &[
@@ -655,6 +665,7 @@ impl Gs3State {
             version: gs_str(t, 12),
             description: gs_str(t, 40),
             extra_sections: t.draw(DATA, 4) == 0,
+            cut_values_resent: false,
         }
     }
 
@@ -767,6 +778,14 @@ impl Gs3State {
                 cur.push(offset as u8);
                 for v in &values[offset .. offset + take] {
                     z(cur, v);
+                }
+                if self.cut_values_resent && next_cut.is_some() && offset + take < values.len() {
+                    // the beginning of the value that did not fit
+                    let next = &values[offset + take];
+                    let n = next.chars().count();
+                    if n >= 2 {
+                        z(cur, &next.chars().take((n / 2).max(1)).collect::<String>());
+                    }
                 }
                 cur.push(0);
                 offset += take;
